@@ -116,6 +116,18 @@ def run(tier, seed):
             B.run_case(regrun.policy_of(pd), reg, "dict", exp, f"{fmt}-clock", scn=s)
             chk.seen((fmt, now - T0))
     chk.sample({"subject": "packed chain", "boundaries": "leaf/intermediate/root notBefore/notAfter +-3 s", "rule": "accepted iff notBefore <= now < notAfter for every certificate"})
+    # 3b. the attestation certificate itself configured as an anchor (alone, or next to its issuer): its own validity still counts
+    for fmt in ("packed", "tpm", "fido-u2f", "apple"):
+        for mode in ("pin-leaf-and-root", "pin-leaf"):
+            s = regsim.RScn(fmt, "ES256-P256")
+            s.roots_mode = mode
+            s.k["leaf_nb"], s.k["leaf_na"] = T0 - DAY, T0 + DAY
+            for d in (0, 2 * DAY, -2 * DAY, DAY, DAY - 1, 0):
+                s.now = T0 + d
+                pd, reg = regsim.build(s)
+                inside = -DAY <= d < DAY
+                B.run_case(regrun.policy_of(pd), reg, "dict", None if inside else "reject", f"pinned-attestation-certificate/{mode}/{fmt}", scn=s)
+                chk.seen((fmt, mode, d))
     # 4. histories: one response, clock moving between calls
     for fmt in ("packed", "apple", "android-safetynet", "android-key", "tpm"):
         s = regsim.RScn(fmt, "ES256-P256")
